@@ -13,10 +13,24 @@ the implementation's artefact of stage k-1 and compared with the
 implementation's artefact of stage k (so every hand-over is checked on real
 files); in addition the model-only chain from the corpus to the weights and
 activations is compared with the implementation's final results.
+Second head (the statement's "... or the event writer"): generated events
+(tokens inside the format: non-empty, no TAB/LF/CR/underscore, otherwise
+arbitrary Unicode incl. Unicode white space; at least one cue and one outcome
+per event) x container {list of lists, tuple, list of joined strings,
+generator, DataFrame} x compression {gzip, None} x compatible {False, True}
+-> io.events_to_file -> io.events_from_file -> cues_outcomes -> ndl.ndl /
+dict_ndl -> activation. The written characters are compared with the model's
+`renderFile`, the events read back with the events written and with the
+model's `parseFile`, counts with the model's strided count, weights with the
+learner model, activations with the returned weights. A plain file is consumed
+through the reader's generator (counter and learners document gzip files), a
+compatible=True file is never routed through filter_event_file (the filter is
+not a consumer of writer files in the statement and rejects a third column).
 """
 import gen
 import learners as L
 import run_C09
+import textgen as T
 from common import rng, frac, close, Fraction
 
 TIMEOUT = 120
@@ -66,7 +80,209 @@ def rules(r, tokens_c, tokens_o):
             'chunksize': r.choice([1, 2, 7, 100000])}
 
 
+# --------------------------------------------------------------------------
+# second head: the event writer as producer
+# --------------------------------------------------------------------------
+
+W_CONTAINERS = ['lists', 'tuples', 'strings', 'generator', 'dataframe']
+
+
+def gen_writer_case(r, i):
+    alphabet = T.FULL if i % 3 else T.TAME
+    n = r.choice([1, 2, 3, 4, 6, 9, 12])
+    evs = T.events(r, n, alphabet, max_cues=4, max_outs=3, empty_out=0.0)
+    if i % 4 == 0:
+        # a token that ends (or consists) of white space other than the line break, in the last field of a line
+        k = r.randrange(len(evs))
+        evs[k][1][-1] = r.choice(['', 'x', 'ä']) + r.choice(T.SPACES + [' ', ' ', '  '])
+    # NOT generated here: a token that ENDS in U+0000.  numpy's fixed-width str arrays drop trailing NULs, so
+    # the labels of every returned DataArray lose them ('b\x00' and 'b' become one label, activation raises
+    # KeyError) - reported to the lead as a finding of this head; NUL inside a token is generated.
+    evs = [[[t.rstrip('\x00') + 'N' if t.endswith('\x00') else t for t in side] for side in ev] for ev in evs]
+    p = gen.params(r)
+    return {'events': evs, 'container': W_CONTAINERS[i % 5], 'compression': 'gzip' if i % 3 != 1 else None,
+            'compatible': r.random() < 0.5, 'count_jobs': r.choice([1, 2, 5]), 'act_jobs': r.choice([1, 2]),
+            'learn': dict(p, learner=r.choice(['dict_ndl', 'ndl_threading', 'ndl_openmp']),
+                          policy=r.choice(['dedup', 'keep', 'error']), n_jobs=r.choice([1, 2]), per_job=r.choice([1, 3, 10]),
+                          per_file=r.choice([2, 10000000]))}
+
+
+def writer_task(c):
+    t = {k: c[k] for k in ('events', 'container', 'compression', 'compatible', 'count_jobs', 'act_jobs', 'learn')}
+    t['op'] = 'pipeline_writer'
+    if c.get('verbose'):
+        t['verbose'] = True
+    return t
+
+
+def writer_roundtrip_request(c):
+    if c['container'] in ('strings', 'dataframe'):
+        evs = [[T.cps('_'.join(cu)), T.cps('_'.join(ou))] for cu, ou in c['events']]
+        cont = 'strings'
+    else:
+        evs = T.ev_cps(c['events'])
+        cont = 'lists'
+    return {'op': 'text_roundtrip', 'container': cont, 'events': evs, 'compatible': bool(c['compatible']),
+            'count_jobs': c['count_jobs']}
+
+
+def eval_writer(pool, driver, cases):
+    """-> [(problem | None, implementation result)] for writer-head cases"""
+    impls = pool.map([writer_task(c) for c in cases])
+    m_rt = driver.ask([writer_roundtrip_request(c) for c in cases])
+    reqs = []
+    for c in cases:
+        Lc = c['learn']
+        case = dict(alpha=Lc['alpha'], beta1=Lc['beta1'], beta2=Lc['beta2'], **{'lambda': Lc['lambda']},
+                    events=c['events'], policy=Lc['policy'], per_job=Lc['per_job'], per_file=Lc['per_file'])
+        reqs.append(L.model_request(case, Lc['learner']))
+    m_l = driver.ask(reqs)
+    out = []
+    for c, res, mr, ml in zip(cases, impls, m_rt, m_l):
+        out.append((writer_problem(c, res, mr, ml), res))
+    return out
+
+
+def writer_problem(c, res, mr, ml):
+    evs = [[list(cu), list(ou)] for cu, ou in c['events']]
+    if res.get('err') in ('Timeout', 'WorkerDied', 'HarnessError'):
+        return 'implementation: %s %s' % (res['err'], res.get('msg', ''))
+    if 'content' not in res:
+        return 'stage write: events_to_file failed: %s %s' % (res.get('err'), res.get('msg'))
+    if res['content'] != T.uncps(mr['content']):
+        return 'stage write: file content %r, model renderFile %r' % (res['content'][:80], T.uncps(mr['content'])[:80])
+    if 'read_events' not in res:
+        return 'stage read: events_from_file rejects the file events_to_file wrote: %s %s' % (res.get('err'), res.get('msg'))
+    if 'events' not in mr:
+        return 'stage read: the model reader rejects the written file (model %r)' % (mr,)
+    if res['read_events'] != evs:
+        bad = next(k for k in range(max(len(evs), len(res['read_events'])))
+                   if k >= len(evs) or k >= len(res['read_events']) or evs[k] != res['read_events'][k])
+        return 'stage read: event %d read back as %r, written %r' % (
+            bad, res['read_events'][bad] if bad < len(res['read_events']) else None, evs[bad] if bad < len(evs) else None)
+    if T.ev_uncps(mr['events']) != evs:
+        return 'MODEL: parseFile (renderFile events) differs from the events on a well-formed input'
+    if c['compression'] == 'gzip':
+        if 'n_events' not in res:
+            return 'stage count: cues_outcomes rejects the written file: %s %s' % (res.get('err'), res.get('msg'))
+        mc = mr.get('count') or {}
+        if 'n_events' not in mc:
+            return 'stage count: the model counter rejects the file: %r' % (mc,)
+        if res['n_events'] != mc['n_events'] or res['n_events'] != len(evs):
+            return 'stage count: cues_outcomes reports %d events, written %d, model %d' % (res['n_events'], len(evs), mc['n_events'])
+        if sorted(map(list, res['cue_counts'])) != T.counter_uncps(mc['cues']) or \
+                sorted(map(list, res['outcome_counts'])) != T.counter_uncps(mc['outcomes']):
+            return 'stage count: cue/outcome frequencies differ from the model count of the written file'
+    if 'weights' in res:
+        d = L.compare(dict(res['weights'], attrs={'number_events': res['number_events_attr']}), ml)
+        if d:
+            return 'stage learn: ' + d
+    elif res.get('stage') == 'learn':
+        if ml.get('err') != res.get('err'):
+            return 'stage learn: implementation %s %s, model %s' % (res.get('err'), res.get('msg', ''), ml.get('err', 'weights'))
+        return None
+    else:
+        return 'stage %s: %s %s' % (res.get('stage'), res.get('err'), res.get('msg'))
+    if 'activations' not in res:
+        return 'stage activation: %s %s' % (res.get('err'), res.get('msg'))
+    w = gen.cells_dict(res['weights']['cells'])
+    outs = res['activation_outcomes']
+    exact = ml.get('bits', 9999) <= 53
+    if len(res['activations']) != len(evs):
+        return 'stage activation: %d columns for %d events' % (len(res['activations']), len(evs))
+    for e_i, (cs, _) in enumerate(evs):
+        for o_i, o in enumerate(outs):
+            terms = [w.get((o, cu), Fraction(0)) for cu in set(cs)]
+            want = sum(terms, Fraction(0))
+            if not close(Fraction(frac(res['activations'][e_i][o_i])), want, exact and sum_is_exact(terms)):
+                return 'stage activation: event %d outcome %r: %s, sum of the returned weights %s' % (
+                    e_i, o, float(frac(res['activations'][e_i][o_i])), float(want))
+    if set(outs) != set(res['weights']['outcomes']):
+        return 'activation outcome labels differ from the weight labels'
+    lo = res.get('leftovers')
+    if lo and (lo['systmp'] or lo['giventmp']):
+        return 'temporary entries left behind: %r' % (lo,)
+    if res.get('file_unchanged') is False:
+        return 'the written event file was modified by a consumer'
+    return None
+
+
+def writer_snippet(c):
+    Lc = c['learn']
+    learn = ("ndl.dict_ndl(src(), %s, (%s, %s), %s, remove_duplicates=%r, make_data_array=True)" if Lc['learner'] == 'dict_ndl' else
+             "ndl.ndl(src(), %s, (%s, %s), %s, remove_duplicates=%r, method=" + repr(Lc['learner'][4:]) +
+             ", n_jobs=%d, n_outcomes_per_job=%d, events_per_temporary_file=%d)" % (Lc['n_jobs'], Lc['per_job'], Lc['per_file']))
+    learn = learn % tuple([float(Fraction(Lc[k])) for k in ('alpha', 'beta1', 'beta2', 'lambda')] +
+                          [{'error': None, 'dedup': True, 'keep': False}[Lc['policy']]])
+    return '\n'.join([
+        "import pandas as pd",
+        "from pyndl import io, count, ndl, activation",
+        "events = %r" % (c['events'],),
+        "arg = {'lists': events, 'tuples': tuple(map(tuple, events)), 'strings': [['_'.join(c), '_'.join(o)] for c, o in events],",
+        "       'generator': (e for e in events),",
+        "       'dataframe': pd.DataFrame({'cues': ['_'.join(c) for c, _ in events], 'outcomes': ['_'.join(o) for _, o in events]}, dtype=object)}[%r]" % c['container'],
+        "path, compression = %r, %r" % ('events.tab.gz' if c['compression'] == 'gzip' else 'events.tab', c['compression']),
+        "io.events_to_file(arg, path, compression=compression, compatible=%r)" % bool(c['compatible']),
+        "print(list(io.events_from_file(path, compression=compression)))   # expected: events",
+        "src = lambda: path if compression == 'gzip' else io.events_from_file(path, compression=None)",
+        "if compression == 'gzip': print(count.cues_outcomes(path, n_jobs=%d))" % c['count_jobs'],
+        "w = " + learn,
+        "print(w)",
+        "print(activation.activation(src(), w, n_jobs=%d, remove_duplicates=True))" % c['act_jobs'],
+    ])
+
+
+def run_writer_head(rep, pool, driver, tier):
+    r = rng('C15/writer')
+    quick = tier == 'quick'
+    cases = [gen_writer_case(r, i) for i in range(60 if quick else 600)]
+    rv = rng('C15/writer/verbose')
+    for c in cases:
+        if rv.random() < 0.25:
+            c['verbose'] = True
+    results = eval_writer(pool, driver, cases)
+    failures = []
+    for c, (prob, res) in zip(cases, results):
+        rep.case({k: c[k] for k in ('events', 'container', 'compression', 'compatible', 'learn')},
+                 nontrivial=len(c['events']) >= 2, stream='writer_pipeline')
+        rep.count('writer_container:' + c['container'])
+        rep.count('writer_compression:%s' % c['compression'])
+        rep.count('writer_compatible:%s' % c['compatible'])
+        rep.count('writer_learner:' + c['learn']['learner'])
+        rep.count('writer_reached_stage:' + res.get('stage', '?'))
+        rep.count('writer_verbose:%s' % bool(c.get('verbose')))
+        if any(t[-1:].isspace() for _, o in c['events'] for t in o[-1:]):
+            rep.count('writer_line_ends_in_unicode_white_space')
+        if any(ord(ch) > 127 for cu, ou in c['events'] for t in cu + ou for ch in t):
+            rep.count('writer_non_ascii_tokens')
+        if prob:
+            failures.append((c, prob))
+        elif res.get('stage') == 'done' and len(c['events']) >= 3:
+            rep.sample({'stream': 'writer_pipeline', 'events': c['events'][:3], 'container': c['container'],
+                        'compression': c['compression'], 'compatible': c['compatible'], 'file': res['content'][:60],
+                        'n_events': res.get('n_events'), 'weights': res['weights']['cells'][:3]}, limit=3)
+    rep.extra['writer_failures_total'] = len(failures)
+    for c, prob in failures[:3]:
+        def fails(x):
+            # stay inside the generated domain: well-formed tokens, at least one cue and one outcome
+            if not x['events'] or not T.well_formed(x['events']) or any(not o for _, o in x['events']):
+                return False
+            return eval_writer(pool, driver, [x])[0][0] is not None
+        small, steps = T.shrink_rows(c, 'events', fails, budget=60,
+                                     simplify=[('verbose', False), ('container', 'lists'), ('compatible', False),
+                                               ('compression', 'gzip'), ('count_jobs', 1), ('act_jobs', 1),
+                                               ('learn', dict(c['learn'], learner='dict_ndl', policy='keep'))])
+        (prob2, res2), = eval_writer(pool, driver, [small])
+        rep.violation({'what': prob2 or prob, 'input': writer_task(small),
+                       'observed': {kk: res2.get(kk) for kk in ('stage', 'err', 'msg', 'content', 'read_events', 'n_events')},
+                       'python': writer_snippet(small),
+                       'theorem_or_stream': 'C15 writer_reader_learner / writer_count / learner_activation_consistent '
+                                            '(pipeline head io.events_to_file)',
+                       'shrunk_from_events': len(c['events']), 'shrink_steps': steps})
+
+
 def run(rep, pool, driver, tier):
+    run_writer_head(rep, pool, driver, tier)
     r = rng('C15')
     quick = tier == 'quick'
     cases = []
@@ -91,6 +307,11 @@ def run(rep, pool, driver, tier):
                            n_jobs=r.choice([1, 2]), per_job=r.choice([1, 3, 10]), per_file=r.choice([2, 10000000]))}
         tasks.append(t)
         keep.append((c, m))
+    # X1: verbose=True in every stage that has the flag, for a quarter of the pipelines (own stream)
+    rv = rng('C15/verbose')
+    for t in tasks:
+        if rv.random() < 0.25:
+            t['verbose'] = True
     impls = pool.map(tasks)
     # stage-wise model requests on the implementation's artefacts
     req_f, req_c, req_l, req_a, idx = [], [], [], [], []
@@ -149,6 +370,7 @@ def run(rep, pool, driver, tier):
                   'filter': t['filter'], 'learn': t['learn']}, nontrivial=len(m['events']) >= 2, stream='pipeline')
         rep.count('learner:' + t['learn']['learner'])
         rep.count('reached_stage:' + res.get('stage', '?'))
+        rep.count('verbose:%s' % bool(t.get('verbose')))
         prob = None
         rd = c['remove_duplicates']
         if 'event_lines' not in res:
